@@ -372,3 +372,6 @@ func (b *Budget) Exceeded() bool {
 	return false
 }
 func (b *Budget) Hit() bool { b.mu.Lock(); defer b.mu.Unlock(); return b.hit }
+
+func (r *Report) Lock()   { r.mu.Lock() }
+func (r *Report) Unlock() { r.mu.Unlock() }
